@@ -36,6 +36,47 @@ theorem nft_translated_pinned : Irismod.Gen.PureNft.translated =
      "TransferDenomOwner_guard_1(read_srcOwner_String,denom_Creator)",
      "Authorize_guard_1(read_owner_Equals_k_nk_GetOwner_ctx_denomID_tokenID)"] := rfl
 
+/-- every rejecting guard (an `if` ending in the return of an error, or in a panic) of the translated functions and of
+the handlers around them, as source text in source order: removing, weakening or reordering one breaks this -/
+theorem nft_guards_pinned : Irismod.Gen.PureNft.guards =
+    ["UpdateNFT: denom, err := k.GetDenomInfo(ctx, denomID); err != nil",
+     "UpdateNFT: denom.UpdateRestricted",
+     "UpdateNFT: err := k.Authorize(ctx, denomID, tokenID, owner); err != nil",
+     "UpdateNFT: !exist",
+     "UpdateNFT: nftMetadata, err := types.UnmarshalNFTMetadata(k.cdc, token.Data.GetValue()); err != nil",
+     "UpdateNFT: data, err := codectypes.NewAnyWithValue(&nftMetadata); err != nil",
+     "TransferOwnership: !exist",
+     "TransferOwnership: err := k.Authorize(ctx, denomID, tokenID, srcOwner); err != nil",
+     "TransferOwnership: denom, err := k.GetDenomInfo(ctx, denomID); err != nil",
+     "TransferOwnership: denom.UpdateRestricted && (tokenChanged || tokenMetadataChanged)",
+     "TransferOwnership: !tokenChanged && !tokenMetadataChanged",
+     "TransferOwnership: nftMetadata, err := types.UnmarshalNFTMetadata(k.cdc, token.Data.GetValue()); err != nil",
+     "TransferOwnership: data, err := codectypes.NewAnyWithValue(&nftMetadata); err != nil",
+     "TransferOwnership: err := k.nk.Update(ctx, token); err != nil",
+     "MintNFT: recipient, err := sdk.AccAddressFromBech32(msg.Recipient); err != nil",
+     "MintNFT: sender, err := sdk.AccAddressFromBech32(msg.Sender); err != nil",
+     "MintNFT: denom, err := k.GetDenomInfo(ctx, msg.DenomId); err != nil",
+     "MintNFT: denom.MintRestricted && denom.Creator != sender.String()",
+     "MintNFT: err := k.SaveNFT(ctx, msg.DenomId, msg.Id, msg.Name, msg.URI, msg.UriHash, msg.Data, recipient, ); err != nil",
+     "TransferDenomOwner: denom, err := k.GetDenomInfo(ctx, denomID); err != nil",
+     "TransferDenomOwner: srcOwner.String() != denom.Creator",
+     "TransferDenomOwner: data, err := codectypes.NewAnyWithValue(denomMetadata); err != nil",
+     "Authorize: !owner.Equals(k.nk.GetOwner(ctx, denomID, tokenID))",
+     "Keeper.IssueDenom: sender, err := sdk.AccAddressFromBech32(msg.Sender); err != nil",
+     "Keeper.IssueDenom: err := k.SaveDenom(ctx, msg.Id, msg.Name, msg.Schema, msg.Symbol, sender, msg.MintRestricted, msg.UpdateRestricted, msg.Description, msg.Uri, msg.UriHash, msg.Data, ); err != nil",
+     "Keeper.EditNFT: sender, err := sdk.AccAddressFromBech32(msg.Sender); err != nil",
+     "Keeper.EditNFT: err := k.UpdateNFT(ctx, msg.DenomId, msg.Id, msg.Name, msg.URI, msg.UriHash, msg.Data, sender, ); err != nil",
+     "Keeper.TransferNFT: sender, err := sdk.AccAddressFromBech32(msg.Sender); err != nil",
+     "Keeper.TransferNFT: recipient, err := sdk.AccAddressFromBech32(msg.Recipient); err != nil",
+     "Keeper.TransferNFT: err := k.TransferOwnership(ctx, msg.DenomId, msg.Id, msg.Name, msg.URI, msg.UriHash, msg.Data, sender, recipient, ); err != nil",
+     "Keeper.BurnNFT: sender, err := sdk.AccAddressFromBech32(msg.Sender); err != nil",
+     "Keeper.BurnNFT: err := k.RemoveNFT(ctx, msg.DenomId, msg.Id, sender); err != nil",
+     "Keeper.TransferDenom: sender, err := sdk.AccAddressFromBech32(msg.Sender); err != nil",
+     "Keeper.TransferDenom: recipient, err := sdk.AccAddressFromBech32(msg.Recipient); err != nil",
+     "Keeper.TransferDenom: err := k.TransferDenomOwner(ctx, msg.Id, sender, recipient); err != nil",
+     "Keeper.RemoveNFT: err := k.Authorize(ctx, denomID, tokenID, owner); err != nil",
+     "Keeper.SaveNFT: data, err := codectypes.NewAnyWithValue(nftMetadata); err != nil"] := rfl
+
 /-- the do-not-modify sentinel -/
 def sentinel : String := "[do-not-modify]"
 
